@@ -92,6 +92,17 @@ theorem optimize_width_keeps_values (t : Odf.Table.Tbl) (h : Odf.Table.Inv t) (x
 theorem optimize_width_idempotent (t : Odf.Table.Tbl) (h : Odf.Table.Inv t) : tblOptimize (tblOptimize t) = tblOptimize t :=
   tblOptimize_idem t h
 
+/-- … and what goes is only trailing: the result's rows are, one for one, the first rows of the table, each of them
+    the old row minus a block of trailing empty cells (styled or not), and the rows that are dropped are empty rows -/
+theorem optimize_width_removes_only_trailing_empties (t : Odf.Table.Tbl) (h : Odf.Table.Inv t) :
+    ∃ cut : List Odf.Table.RowD,
+      (Odf.Rle.expand t.rows.runs).length = (Odf.Table.absT (tblOptimize t)).rows.length + cut.length ∧
+      (∀ d ∈ cut, d.all (fun c => empOf false c.1) = true) ∧
+      ∀ (y : Nat) (row' : List Nat), (Odf.Table.absT (tblOptimize t)).rows[y]? = some row' →
+        ∃ (row suf : List Nat), (Odf.Table.absT t).rows[y]? = some row ∧ row = row' ++ suf ∧
+          ∀ c ∈ suf, empOf true c = true :=
+  tblOptimize_only_trailing t h
+
 example :
     let t := Odf.Table.parse [(0, 5)] [([(5, 1), (0, 4)], 1), ([(0, 5)], 1), ([(0, 5)], 2)]
     (tblOptimize t).rows.runs = [([(5, 1), (0, 1)], 1), ([(0, 2)], 1)] ∧ (tblOptimize t).cols.runs = [(0, 2)] := by
